@@ -261,9 +261,10 @@ pub fn set_scale(n: usize) { SCALE.store(n, std::sync::atomic::Ordering::Relaxed
 pub fn scale() -> usize { SCALE.load(std::sync::atomic::Ordering::Relaxed) }
 
 pub fn check(pid: &str, seed: u64) -> Value {
-    if ["C05", "C06", "C07", "C08", "C10", "C16"].contains(&pid) {
+    if ["C02", "C05", "C06", "C07", "C08", "C10", "C16"].contains(&pid) {
         let mut rep = crate::preds2::Rep { evals: 0, nontrivial: 0, failures: vec![], samples: vec![] };
         let (domain, rule) = match pid {
+            "C02" => { crate::preds2::c02(&mut rep, seed); ("the hand-written buildings, the seeded buildings over the whole vocabulary of the format (60 quick / 600 thorough), every seventh enumerated single-step building and the multi-step ones x the four regulatory factor sets and two user files whose step A/B, grid / non-EPB destination and per-source factors all differ (every set for the first 20 buildings, two of the six in turn for the others) x k_exp in {0, 0.3, 1} x both load-matching modes x area 1 or 37.5; compared: every per-carrier, per-service, per-source and whole-building figure, per step and per period, and RER, against an independent f64 evaluation of the equations (replay/src/refimpl.rs)", "an evaluation is non-trivial when the crate returns a result") }
             "C05" => { crate::preds2::c05(&mut rep); crate::preds2::c05_special(&mut rep); crate::preds2::c05_outputs(&mut rep); ("EAMBIENTE / TERMOSOLAR x two systems with ids from {-1,0,1} (also the same id twice) x use in {0, 2, (3,1)} x declared production in {none, 1, 5, (0,4)} x one use, two EPB uses, or an EPB and a non-EPB use per system; 2 steps; + hand-written files (interleaved systems, repeated demand lines, declared production carrying the comment of the automatic completion, outputs of either sign and of negative-id systems)", "every generated file has ambient / solar components") }
             "C06" => { crate::preds2::c06(&mut rep); crate::preds2::c06_special(&mut rep); ("system 1 with services {CAL},{CAL,ACS},{CAL,REF},{CAL,ACS,REF} x outputs from {30,10,-10,(30,0),(10,0),(0,20)} x AUX in {4,(4,2),(0,3)} x with/without a second single-service system with AUX x electricity otherwise present or absent; + hand-written systems (several AUX lines, negative system ids, cogeneration-only systems)", "multi-service systems are the non-trivial cases") }
             "C16" => { crate::preds2::c16(&mut rep, seed); ("the repository's test_data component files, the special buildings of the other predicates, 21 hand-written edge shapes (AUX without consumption, DHW demand with biomass and PV, empty / short / non-numeric / non-finite fields, different lengths) and 60 seeded token- or line-level corruptions (drop, duplicate, swap, replace) of each of the first 20 files; each parsed, evaluated with the full and the stripped factor set in both load-matching modes and passed to the DHW renewable fraction, under catch_unwind; + long lines of unknown kind with multi-byte text at every byte offset 45..115, metadata accessors, value parsers and corrupted factor files", "an input is non-trivial when it parses and at least one evaluation succeeds") }
@@ -301,7 +302,14 @@ pub fn check(pid: &str, seed: u64) -> Value {
                     if let Ok(ep) = run(&tcase(t, k, area, lm)) {
                         nontrivial += 1;
                         match pid {
-                            "C01" => if let Some(w) = c01(&ep) { failures.push(json!({"clause": "C01", "components": t, "k_exp": k, "load_matching": lm, "what": w})); },
+                            "C01" => {
+                                if let Some(w) = c01(&ep) { failures.push(json!({"clause": "C01", "components": t, "k_exp": k, "load_matching": lm, "what": w})); }
+                                // the same building passed as a component set built in code, without the automatic completion
+                                if let Ok(ep2) = crate::run_uncompleted(&tcase(t, k, area, lm)) {
+                                    evals += 1;
+                                    if let Some(w) = c01(&ep2) { failures.push(json!({"clause": "C01.built_in_code", "components": format!("{}\n(passed as a component set built in code: the productions added by the automatic completion removed)", t), "k_exp": k, "load_matching": lm, "what": w})); }
+                                }
+                            }
                             "C04" => if let Some(w) = c04(&ep) { failures.push(json!({"clause": "C04", "components": t, "k_exp": k, "area": area, "load_matching": lm, "what": w})); },
                             _ => for (cl, w) in c13(&ep) { if known.iter().filter(|f| f["clause"] == cl).count() < 3 { known.push(json!({"clause": cl, "components": t, "k_exp": k, "load_matching": lm, "what": w})); } },
                         }
